@@ -78,7 +78,7 @@ def _make_llsd_tuplecoord_spec(typ: Type[TupleCoord], needed_elems: Optional[int
         def _packer(x):
             if isinstance(x, TupleCoord):
                 x = x.data()
-            return list(x.data(needed_elems))
+            return list(x[:needed_elems])
     return lambda x: typ(*x), _packer
 
 
